@@ -45,7 +45,8 @@ SPECS = {
     "C19": {
         "scenarios": [{"name": "collect_on", "runs": {"quick": 300, "thorough": 1000000}, "chunks": {"quick": 2, "thorough": 2}},
                       {"name": "offpolicy", "runs": {"quick": 100, "thorough": 1000000}, "chunks": {"quick": 1, "thorough": 1}},
-                      {"name": "train", "runs": {"quick": 16, "thorough": 1000000}, "chunks": {"quick": 1, "thorough": 1}}],
+                      {"name": "train", "runs": {"quick": 16, "thorough": 1000000}, "chunks": {"quick": 1, "thorough": 1}},
+                      {"name": "evalhelper", "runs": {"quick": 100, "thorough": 1000000}, "chunks": {"quick": 1, "thorough": 1}}],
         "budget_s": {"quick": 600, "thorough": 1200},
         "rule": "one evaluation = one seeded simulated run; the real LoggingCallback step logic runs inside the real collection loop; after every "
         "iteration each node's logger state is compared with RefLogger fed with the TRUE environment rewards and flags derived by RefMDP from the "
